@@ -99,7 +99,7 @@ class Eff:
 class Registration:
     """One ``context(<callable>)`` site, decoded."""
 
-    __slots__ = ("node", "fn", "callable_expr", "target", "target_fn", "recv", "args", "kwargs", "is_lambda", "closure")
+    __slots__ = ("node", "fn", "callable_expr", "target", "target_fn", "recv", "args", "kwargs", "is_lambda", "closure", "closure_node")
 
     def __init__(self, node, fn):
         self.node = node  # the context(...) Call
@@ -111,6 +111,7 @@ class Registration:
         self.args: List[ast.AST] = []
         self.kwargs: Dict[str, ast.AST] = {}
         self.closure: Optional[FuncInfo] = None
+        self.closure_node = None  # def/lambda node when the entry was written as a closure and read as a partial
 
 
 class Effects:
@@ -914,6 +915,15 @@ class Effects:
             target = ce.args[0]
             reg.args = list(ce.args[1:])
             reg.kwargs = {k.arg: k.value for k in ce.keywords if k.arg}
+        # a closure / lambda whose body is one call with early-bound arguments is the same thing as a partial:
+        #   def undo(linked=met._reaction, rxn=reaction): linked.add(rxn)      ==  partial(met._reaction.add, reaction)
+        des = self._desugar_closure(fn, target) if not reg.args and not reg.kwargs else None
+        if des is not None:
+            reg.closure_node = des[2]
+            target, reg.args, reg.kwargs = des[0], des[1], des[3]
+            if isinstance(target, ast.Name) and target.id not in fn.nested:
+                # remove = model.solver.remove ; def undo(remove=remove, ...): remove(...)
+                target = inf.expand_alias(fn, target)
         reg.target = target
         if isinstance(target, ast.Lambda):
             reg.is_lambda = True
@@ -935,6 +945,60 @@ class Effects:
                             m = ms[0]
                 reg.target_fn.append(m)
         return reg
+
+    def _desugar_closure(self, fn: FuncInfo, target: ast.AST):
+        """(callee expr, positional args, def/lambda node, keyword args) for a single-call closure, else None."""
+        node = None
+        if isinstance(target, ast.Lambda):
+            node = target
+            calls = [target.body] if isinstance(target.body, ast.Call) else []
+        elif isinstance(target, ast.Name) and target.id in fn.nested:
+            node = fn.nested[target.id].node
+            stmts = [s_ for s_ in node.body if not (isinstance(s_, ast.Expr) and isinstance(s_.value, ast.Constant))]
+            calls = [s_.value for s_ in stmts if isinstance(s_, (ast.Return, ast.Expr)) and isinstance(s_.value, ast.Call)] if len(stmts) == 1 else []
+        else:
+            return None
+        if len(calls) != 1:
+            return None
+        call = calls[0]
+        a = node.args
+        if a.vararg or a.kwarg:
+            return None
+        names = [x.arg for x in a.posonlyargs + a.args]
+        defaults = dict(zip(names[len(names) - len(a.defaults):], a.defaults))
+        for x, d in zip(a.kwonlyargs, a.kw_defaults):
+            names.append(x.arg)
+            if d is not None:
+                defaults[x.arg] = d
+        if any(n not in defaults for n in names):
+            return None  # the history calls its entries without arguments
+
+        class _Subst(ast.NodeTransformer):
+            def visit_Name(self_, n):  # noqa: N805
+                if isinstance(n.ctx, ast.Load) and n.id in defaults:
+                    return defaults[n.id]
+                return n
+
+        import copy as _copy
+
+        def sub(e):
+            if isinstance(e, ast.Name) and e.id in defaults:
+                return defaults[e.id]
+            if not any(isinstance(x, ast.Name) and x.id in defaults for x in ast.walk(e)):
+                return e
+            new = _Subst().visit(_copy.deepcopy(e))
+            ast.fix_missing_locations(new)
+            for par in ast.walk(new):
+                for ch in ast.iter_child_nodes(par):
+                    if not hasattr(ch, "_parent"):
+                        ch._parent = par  # type: ignore[attr-defined]
+            if not hasattr(new, "_parent"):
+                new._parent = getattr(call, "_parent", None)  # type: ignore[attr-defined]
+            return new
+
+        if any(isinstance(x, ast.Starred) for x in call.args) or any(k.arg is None for k in call.keywords):
+            return None
+        return sub(call.func), [sub(x) for x in call.args], node, {k.arg: sub(k.value) for k in call.keywords}
 
     # ------------------------------------------------------------- summaries
     def context_aware(self, fn: FuncInfo) -> bool:
